@@ -1,6 +1,8 @@
 import TaurexModel.Proto
 import TaurexModel.Priors
 import TaurexModel.FittableTable
+import TaurexModel.PriorObjects
+import TaurexModel.FittingSection
 
 namespace Taurex.Ops.C08
 open Taurex.Proto Taurex.Priors Taurex.FittableTable
@@ -167,8 +169,120 @@ def declaredOp (args : List String) : Option String :=
           | _ => "0"
         s!"{esc e.name} {m} {fB e.fit} {fF e.b0} {fF e.b1} {d}") t)) args
 
+/-! ### prior objects (identity, in-place `set_bounds`) -/
+
+/-- one operation on the wire: `0 <call>` = `create_prior` of a text that parses to the call (numbers converted by the
+    harness), `1 i b0 b1` = `set_bounds([b0, b1])` on the object created `i`-th -/
+def objOpP : P (PriorObjects.Op Float) := do
+  let k ← nat
+  match k with
+  | 0 => do let c ← callP flt; pure (.create c)
+  | 1 => do let i ← nat; let a ← flt; let b ← flt; pure (.setBounds i a b)
+  | _ => failure
+
+/-- `c08.objects half quarter ops z10 z90 us zs xs` → for every operation of the history the evaluation (as in `c08.prior`)
+    of EVERY object alive after it, in creation order (`PriorObjects.trace`) -/
+def objectsOp (args : List String) : Option String :=
+  run (do
+    let half ← flt
+    let quarter ← flt
+    let ops ← listOf objOpP
+    let z10 ← flt
+    let z90 ← flt
+    let us ← listOf flt
+    let zs ← listOf flt
+    let xs ← listOf flt
+    let tr := PriorObjects.trace half quarter [] ops
+    pure (fList (fun (h : PriorObjects.Heap Float) => fList (fun p => fPriorEval p z10 z90 us zs xs) h) tr)) args
+
+/-! ### the input-file route: `[Fitting]` section → `setup_optimizer` → `enable_fit` … → `compile_params` -/
+
+open Taurex.OptimizerSM Taurex.FittingSection in
+def paramP : P (Param String Float) := do
+  let name ← str
+  let m ← nat
+  let fit ← bool
+  let b0 ← flt
+  let b1 ← flt
+  let v ← flt
+  pure ⟨name, if m == 0 then FitMode.linear else FitMode.log, fit, b0, b1, v⟩
+
+open Taurex.FittingSection in
+def optValP : P (OptVal Float) := do
+  let k ← nat
+  match k with
+  | 0 => do let b ← bool; pure (.bool b)
+  | 1 => do let x ← flt; pure (.num x)
+  | 2 => do let s ← str; pure (.str s)
+  | 3 => do let xs ← listOf flt; pure (.nums xs)
+  | 4 => do let xs ← listOf str; pure (.strs xs)
+  | _ => failure
+
+/-- the numbers of a parsed call replaced, in order of appearance, by the values the harness got from `float()` -/
+def fillArgs : List (String × ArgVal String) → List Float → Option (List (String × ArgVal Float))
+  | [], _ => some []
+  | (k, .num _) :: r, x :: xs => (fillArgs r xs).map ((k, ArgVal.num x) :: ·)
+  | (_, .num _) :: _, [] => none
+  | (k, .tuple ts) :: r, xs =>
+    if xs.length < ts.length then none
+    else (fillArgs r (xs.drop ts.length)).map ((k, ArgVal.tuple (xs.take ts.length)) :: ·)
+  | (k, .list ts) :: r, xs =>
+    if xs.length < ts.length then none
+    else (fillArgs r (xs.drop ts.length)).map ((k, ArgVal.list (xs.take ts.length)) :: ·)
+
+open Taurex.FittingSection in
+/-- `create_prior(value)` on a typed section value: the text is parsed by `parsePrior`, its number literals take the values
+    of `tbl` (text ↦ `float()` of its literals), the call is built by `createPrior` -/
+def mkPriorTbl (half quarter : Float) (tbl : List (String × List Float)) : OptVal Float → Option (Prior Float)
+  | .str s =>
+    match parsePrior s, tbl.find? (fun e => e.1 == s) with
+    | some c, some e =>
+      match fillArgs c.args e.2 with
+      | some as =>
+        match createPrior half quarter ⟨c.fn, as⟩ with
+        | .ok p => some p
+        | _ => none
+      | none => none
+    | _, _ => none
+  | _ => none
+
+open Taurex.OptimizerSM Taurex.FittingSection in
+/-- `c08.file z10 z90 half quarter params fitting numbers phases us zs xs`: a fresh optimizer over a model with the declared
+    `params` (name mode fit b0 b1 value), `setup_optimizer` with the `[Fitting]` entries (key, typed value), then per phase
+    `enable_fit` of its names followed by `compile_params` →
+    outcome of the set-up (0 ok, 1 KeyError, 2 ValueError, 3 prior error, 4 unsupported shape), then per phase
+    `compile outcome (0 ok / 2 ValueError)`, the reported names (`log_` prefix by the prior's space) and the evaluation of
+    every compiled prior as in `c08.prior` -/
+def fileOp (args : List String) : Option String :=
+  run (do
+    let z10 ← flt
+    let z90 ← flt
+    let half ← flt
+    let quarter ← flt
+    let params ← listOf paramP
+    let fitting ← listOf (do let k ← str; let v ← optValP; pure (k, v))
+    let numbers ← listOf (do let t ← str; let xs ← listOf flt; pure (t, xs))
+    let phases ← listOf (listOf str)
+    let us ← listOf flt
+    let zs ← listOf flt
+    let xs ← listOf flt
+    let s0 : St String Float := initSt params [] [] []
+    let r := setupOptimizer (mkPriorTbl half quarter numbers) s0 fitting []
+    let code : Nat := match r.2.1 with
+      | .ok => 0 | .keyError => 1 | .valueError => 2 | .priorError => 3 | .unsupported => 4
+    let rec go (s : St String Float) : List (List String) → List String
+      | [] => []
+      | en :: rest =>
+        let c := step (OptimizerSM.run s (en.map Op.enableFit)) .compile
+        let o : Nat := match c.2 with | .ok => 0 | .keyError => 1 | .valueError => 2
+        let names := match fitNames c.1 with
+          | some ns => fList (fun (x : Bool × String) => esc (if x.1 then "log_" ++ x.2 else x.2)) ns
+          | none => "0"
+        (s!"{o} {names} " ++ fList (fun p => fPriorEval p z10 z90 us zs xs) c.1.compiledPriors) :: go c.1 rest
+    pure (s!"{code} " ++ fList id (go r.1 phases))) args
+
 def ops : List Op :=
   [("c08.prior", priorOp), ("c08.parse", parseOp), ("c08.print", printOp), ("c08.create", createOp),
-   ("c08.declared", declaredOp)]
+   ("c08.declared", declaredOp), ("c08.objects", objectsOp), ("c08.file", fileOp)]
 
 end Taurex.Ops.C08
